@@ -11,7 +11,7 @@ from .execu import Obligation
 from . import replay as RP
 from . import source
 
-CONTRACT_MODULES = ['contracts.game_game', 'contracts.sections']
+CONTRACT_MODULES = ['contracts.game_game', 'contracts.sections', 'contracts.p8text', 'contracts.p8png']
 
 
 def registry(mods=None):
@@ -122,12 +122,74 @@ def _show(v):
     return v
 
 
+class Rec:
+    """Records the accounting calls of one contract run in a worker process; replayed on the real Check."""
+    def __init__(self, known):
+        self.known = known
+        self.calls = []
+        self.samples = []
+        self.conformance_runs = 0
+        self.functions = self
+
+    def append(self, d):
+        self.calls.append(('functions.append', (d,)))
+
+    def __getattr__(self, name):
+        if name in ('assume', 'undecide', 'error', 'count', 'violation', 'trust'):
+            def f(*args):
+                if name == 'count' and len(args) > 3 and len(self.samples) < 3:
+                    self.samples.append(1)
+                self.calls.append((name, args))
+            return f
+        raise AttributeError(name)
+
+
+def _replay_calls(check, rec_calls, conf):
+    for name, args in rec_calls:
+        if name == 'functions.append':
+            check.functions.append(*args)
+        else:
+            getattr(check, name)(*args)
+    check.conformance_runs += conf
+
+
+_JOB = {}
+
+
+def _worker(i):
+    c, variant, reg, tier, seed, cp, known = _JOB['items'][i]
+    os.environ['VERIF_JOBS'] = '1'
+    rec = Rec(known)
+    try:
+        _run_one(rec, c, variant, reg, tier, seed, cp)
+    except Exception as e:
+        import traceback
+        rec.calls.append(('error', ('%s: worker crashed: %s' % (c.target, traceback.format_exc()[-800:]),)))
+    return i, rec.calls, rec.conformance_runs
+
+
 def run_contracts(check, contracts, reg, tier, seed=0, conformance_paths=None):
-    """Verify each contract, discharge, replay failures, account in `check`."""
-    reports = []
-    for c, variant in [(c, v) for c in contracts for v in c.variants]:
+    """Verify each contract (in parallel worker processes), discharge, replay failures, account in `check`."""
+    items = [(c, v, reg, tier, seed, conformance_paths, check.known) for c in contracts for v in c.variants]
+    jobs = int(os.environ.get('VERIF_JOBS', '0')) or min(16, os.cpu_count() or 1)
+    if len(items) <= 1 or jobs <= 1:
+        for it in items:
+            _run_one(check, *it[:6])
+        return
+    import multiprocessing as mp
+    from concurrent.futures import ProcessPoolExecutor
+    _JOB['items'] = items
+    results = {}
+    with ProcessPoolExecutor(max_workers=min(jobs, len(items)), mp_context=mp.get_context('fork')) as pool:
+        for i, calls, conf in pool.map(_worker, range(len(items))):
+            results[i] = (calls, conf)
+    for i in range(len(items)):
+        _replay_calls(check, *results[i])
+
+
+def _run_one(check, c, variant, reg, tier, seed=0, conformance_paths=None):
+    if True:
         rep = verify(c, reg, variant)
-        reports.append(rep)
         if rep.fn is not None and variant in (None, c.variants[0]):
             check.functions.append({'function': c.target, 'file': os.path.relpath(rep.fn.path, source.REPO),
                                     'line': rep.fn.line, 'sha256': rep.fn.sha, 'paths': rep.paths,
@@ -136,7 +198,7 @@ def run_contracts(check, contracts, reg, tier, seed=0, conformance_paths=None):
             check.assume(asm)
         if rep.error:
             check.undecide('%s: %s' % (c.target, rep.error))
-            continue
+            return
         # known-finding input classes are excluded from the quantifier; anything left is new
         K, a = rep.setup
         excl = []
@@ -211,7 +273,8 @@ def run_contracts(check, contracts, reg, tier, seed=0, conformance_paths=None):
                 check.conformance_runs += 1
                 if bad:
                     check.error('conformance mismatch (engine misrepresents Python) in %s path %d: %s' % (c.target, i + 1, bad))
-    return reports
+
+
 
 
 def replay_known(check, reg):
